@@ -118,6 +118,7 @@ func loadProgram(pkgDirs []string) (*ssa.Program, map[string]*ssa.Package, error
 		if len(bad) == 0 {
 			break
 		}
+		fmt.Printf("note: harness files dropped because they do not compile against this tree: %v\n%v\n", bad, err)
 		excludedHarness = append(excludedHarness, bad...)
 	}
 	return nil, nil, lastErr
